@@ -410,11 +410,19 @@ func (c *compiler) evalAccessIndex(left, index interface{}, node *ast.IndexExpre
 	switch rv.Kind() {
 	case reflect.Map:
 		mapKeyType := reflect.TypeOf(left).Key().Kind()
+		if index == nil {
+			return nil, fmt.Errorf("cannot use nil as %s value in map index", mapKeyType.String())
+		}
+
 		keyType := reflect.TypeOf(index).Kind()
 		if mapKeyType != reflect.Interface &&
 			keyType != mapKeyType {
 			err = fmt.Errorf("cannot use %v (%s constant) as %s value in map index", index, keyType.String(), mapKeyType.String())
 			return nil, err
+		}
+
+		if !reflect.TypeOf(index).AssignableTo(reflect.TypeOf(left).Key()) || !reflect.TypeOf(index).Comparable() {
+			return nil, fmt.Errorf("cannot use %v (%T) as %s value in map index", index, index, reflect.TypeOf(left).Key())
 		}
 
 		val := rv.MapIndex(reflect.ValueOf(index))
